@@ -201,7 +201,7 @@ class BatchWorld(World):
                    "after a submission that raised, the second batch uses a fresh BatchProxy (re-use of a BatchProxy whose submission "
                    "failed is not covered by the statement)",
                    "a one-way batch is judged at quiescence (all threads idle, 0.5 virtual seconds later)"]
-    QUICK_RUNS = 2400
+    QUICK_RUNS = 6000
     CHUNK = 100
     SHRINK_LISTS = ["calls", "second"]
 
